@@ -36,7 +36,7 @@ PLANS['C01'] = {
     'rule': ('seeded random DOMs (shape, classes known/unknown, database-driven and unknown properties, all binary value types '
              'with boundary pools, abstract refs) x random root antichain x {lz4,none,zstd}; each is written by rbx_binary, read back, '
              'and compared with an expected dump derived from the abstract spec and the property statement; the same bytes are also decoded through a reader that is not a slice (a few bytes per call / a small BufReader / '
-             'two halves chained) and must give the same DOM; one tree in four contains 2-4 instances of one class sharing a Content-object / Ref / SharedString column; '
+             'two halves chained) and must give the same DOM; one case in four also compares the other public entry points (to_writer, Deserializer::new().deserialize, from_str, *_default) with the ones they abbreviate; one tree in four contains 2-4 instances of one class sharing a Content-object / Ref / SharedString column; '
              'non-trivial = >=2 written instances and >=1 property; distinct = digest of the expected dump'),
     'floor': {'quick': 3000, 'thorough': 100000},
     'assumptions': ['generator reach (see coverage.observed)', 'oracle in harness/src/expect.rs + dbwalk.rs (independent walk of rbx_reflection types)',
@@ -367,6 +367,7 @@ PLANS['C14'] = {
              '(a) to_writer -> from_reader equals the source under the documented normalisations (String->BinaryString, rotation rule from the docs table), and to_writer gives the same bytes through a write()-only writer, '
              'a writer taking 1-7 bytes per call and a small BufWriter as into a Vec; '
              '(b) refattr.py, an independent decoder written from docs/attributes.md, reads the written bytes to the same map; '
+             '(a2) two blobs and a trailer decoded from ONE stream: each from_reader call takes exactly its blob; '
              '(c) blobs built by the independent encoder (entry order shuffled, axis-aligned rotations in long form, non-0/1 Bool bytes) decode to the map they describe; '
              '(d) a file holding three instances of one class (a longer map, the map under test, an empty map): every PROP string in the binary file (refbin.py) and every base64 payload in the XML file (refxml.py) '
              'equals the to_writer bytes of that instance; '
@@ -515,10 +516,11 @@ PLANS['C16'] = {
              'every serializes-as target (same class, typed, leads back to a serializing property), every migration target (serializable), every enum reference, every default value (belongs to a reachable '
              'property; type = declared, serialized, or a documented widening); then for EACH class an instance populated with all its serializable defaults is written and read by both codecs and compared '
              'with the C01/C02 oracle; for EACH class a donor instance sets every default-carrying property to another value and a bare instance next to it must come back with the default visible on that class (nearest class wins); then EACH (class, own descriptor name) goes once through both writers and, where written, both readers (lookup paths must not panic; own output must be readable); '
-             'the Lua-side copy rbx_dom_lua/src/database.json is cross-checked (version, classes, property sets, kinds). non-trivial = each class default instance per format; distinct = class x format'),
+             'the Lua-side copy rbx_dom_lua/src/database.json is cross-checked (version, classes, property sets, kinds); a modified copy of the database (one more serializes-as pair with a default) is handed to both codecs '
+             'through their public options in both chain orders x all compression types / property behaviours and must be the database actually used (wire name, name on the way back, default, identical output for both orders). non-trivial = each class default instance per format; distinct = class x format'),
     'floor': {'quick': 15000, 'thorough': 15000},
     'exhaustive': {'quick': True, 'thorough': True},
-    'assumptions': ['only the bundled database is covered; a regenerated database is covered by re-running the same check', 'two canonical descriptors sharing a wire name are reported as informational (see known findings of C01/C03)'],
+    'assumptions': ['the exhaustive walk covers the bundled database; a regenerated database is covered by re-running the same check (the codecs\' handling of a caller-supplied database is exercised with one modified copy)', 'two canonical descriptors sharing a wire name are reported as informational (see known findings of C01/C03)'],
     'run': _c16,
     'claim': 'exhaustive over the bundled database (797 classes, 3242 descriptors, 458 enums, 7231 defaults at the pinned version; counts are measured each run): structure coherent, every class default instance unchanged through both codecs, no lookup panics',
     'note': 'trusted: dbwalk.rs and the C01/C02 oracle; quick and thorough run the same exhaustive walk',
